@@ -372,11 +372,28 @@ fn eval_inner(c: &Case, obs: &mut Obs) -> Verdict {
                 }
                 Ok(r) => {
                     vensure!(strings_ok, "a connect command carrying a string longer than 65535 bytes was emitted");
+                    let mut seen_connect = false;
                     for (b, d) in split_client(vec![r]).packets {
-                        if let Err(e) = outdec.packet(&b, d) {
-                            vfail!("connect packet undecodable: {}", e);
+                        match outdec.packet(&b, d) {
+                            Ok(ms) => {
+                                for m in ms {
+                                    if let Ok(RM::Command(n, _, o, _)) = &m.rm {
+                                        if n.build() == "connect" {
+                                            seen_connect = true;
+                                            // honoured = it reaches the peer: application name, version string, tcUrl
+                                            vensure!(prop(o, "app").and_then(as_str).map(|v| v.len()) == Some(app.len()), "connect does not carry the requested application name ({} bytes)", app.len());
+                                            vensure!(prop(o, "flashVer").and_then(as_str).map(|v| v.len()) == Some(*version_len as usize), "connect does not carry the configured flash_version ({} bytes): {:?}", version_len, prop(o, "flashVer").and_then(as_str).map(|v| v.len()));
+                                            if let Some(n) = tc_url_len {
+                                                vensure!(prop(o, "tcUrl").and_then(as_str).map(|v| v.len()) == Some(*n as usize), "connect does not carry the configured tc_url ({} bytes)", n);
+                                            }
+                                        }
+                                    }
+                                }
+                            }
+                            Err(e) => vfail!("connect packet undecodable: {}", e),
                         }
                     }
+                    vensure!(seen_connect, "request_connection succeeded without emitting a connect command");
                 }
             }
             if !refused {
@@ -417,6 +434,47 @@ fn eval_inner(c: &Case, obs: &mut Obs) -> Verdict {
                         // honoured = it reaches the peer: the window and the chunk size are announced
                         vensure!(announced_window == vec![*window], "the configured window_ack_size {} is neither refused nor announced to the server after the connection was accepted (announced: {:?}; the server had announced the same value)", window, announced_window);
                         vensure!(announced_chunk == vec![*chunk], "the configured chunk_size {} is neither refused nor announced after the connection was accepted (announced: {:?})", chunk, announced_chunk);
+                        // playback_buffer_length_ms: announced for the stream the server returns
+                        if let Ok(r) = cs.request_playback("k".to_string()) {
+                            let mut tid = None;
+                            for (b, d) in split_client(vec![r]).packets {
+                                match outdec.packet(&b, d) {
+                                    Ok(ms) => {
+                                        for m in ms {
+                                            if let Ok(RM::Command(n, t, _, _)) = &m.rm {
+                                                if n.build() == "createStream" {
+                                                    tid = Some(f64::from_bits(*t));
+                                                }
+                                            }
+                                        }
+                                    }
+                                    Err(e) => vfail!("createStream packet undecodable: {}", e),
+                                }
+                            }
+                            if let Some(t) = tid {
+                                let created = peer.send(&command("_result", t, ra::V::Null, vec![num(7.0)]), 0, 0);
+                                match cs.handle_input(&created) {
+                                    Ok(r) => {
+                                        let mut buffers: Vec<Vec<u32>> = Vec::new();
+                                        for (b, d) in split_client(r).packets {
+                                            match outdec.packet(&b, d) {
+                                                Ok(ms) => {
+                                                    for m in ms {
+                                                        if let Ok(RM::UserControl(3, f)) = &m.rm {
+                                                            buffers.push(f.clone());
+                                                        }
+                                                    }
+                                                }
+                                                Err(e) => vfail!("packets after the createStream result undecodable: {}", e),
+                                            }
+                                        }
+                                        vensure!(buffers == vec![vec![7, *buffer]], "the configured playback_buffer_length_ms {} is not announced for the played stream (SetBufferLength events seen: {:?})", buffer, buffers);
+                                    }
+                                    Err(e) => vfail!("createStream result failed: {:?}", e),
+                                }
+                                let _ = cs.stop_playback();
+                            }
+                        }
                     }
                 }
             }
